@@ -1,7 +1,7 @@
 #!/bin/sh
-# seedtest.sh <id> <prop> : confirm a seeded change delivered in /tmp/mut-<id>/.seed and run the property's check against it
+# seedtest.sh <id> <prop> [worktree-prefix [out-suffix]] : confirm a seeded change delivered in /tmp/mut-<id>/.seed and run the property's check against it
 # 1. demo fails with patch / passes without (in the worktree)  2. apply to /repo, run quick check, undo
-ID=$1; PROP=$2; WT=/tmp/mut-$ID; OUT=/verif/seeded/$ID
+ID=$1; PROP=$2; PFX=${3:-mut}; SUF=${4:-}; WT=/tmp/$PFX-$ID; OUT=/verif/seeded/$ID$SUF
 export GOFLAGS=-mod=mod GOPROXY=off GOSUMDB=off GOTOOLCHAIN=local GOPATH=/root/go GOMODCACHE=/root/go/pkg/mod GOCACHE=/root/.cache/go-build
 mkdir -p $OUT; cp -r $WT/.seed/* $OUT/ 2>/dev/null
 DEMO=$(python3 -c "import json;print(json.load(open('$OUT/meta.json'))['demo_cmd'])")
